@@ -227,6 +227,12 @@ pub fn main(args: &[String]) -> i32 {
                 j["out"] = serde_json::json!("");
             }
         }
+        if v.get("parse").and_then(|c| c.as_bool()).unwrap_or(false) {
+            // does the result consist of Rust items at all?  (rustc: "proc-macro derive produced unparsable tokens")
+            if let Outcome::Ok(t) = &o {
+                j["parses"] = serde_json::json!(syn::parse_str::<syn::File>(t).is_ok());
+            }
+        }
         if v.get("canon").and_then(|c| c.as_bool()).unwrap_or(false) {
             if let Outcome::Ok(t) = &o {
                 j["canon"] = serde_json::json!(canonical_items(t));
